@@ -207,3 +207,64 @@ func VH_C18_AllocSectorTables() {
 		seen[s] = true
 	}
 }
+
+// H18.replace / H03.cfb: replacing a stream (what re-signing an MSI does to
+// the old signature) releases exactly that stream's chain, in the table its
+// size places it in - the short-sector table below MinStdStreamSize, the
+// sector table from MinStdStreamSize on - and touches neither the other table
+// nor any other directory entry. Scaled: MinStdStreamSize 8; one-sector
+// chain; both tables otherwise arbitrary.
+func VH_C18_DeleteStreamFreesItsOwnChain() {
+	const minStd = 8
+	r := &ComDoc{Header: &Header{MinStdStreamSize: minStd}, SectorSize: vhSector, ShortSectorSize: 4}
+	r.SAT = make([]SecID, 4)
+	r.SSAT = make([]SecID, 4)
+	for i := range r.SAT {
+		r.SAT[i] = SecID(int32(vhU32("sat-entry")))
+		r.SSAT[i] = SecID(int32(vhU32("ssat-entry")))
+	}
+	size := uint32(vhConcretize(vhInt("old-signature-bytes", minStd-1, minStd+1), 16))
+	first := vhConcretize(vhInt("first-sector", 0, 3), 4)
+	short := size < minStd
+	if short {
+		r.SSAT[first] = SecIDEndOfChain
+	} else {
+		r.SAT[first] = SecIDEndOfChain
+	}
+	preSAT := append([]SecID{}, r.SAT...)
+	preSSAT := append([]SecID{}, r.SSAT...)
+	r.Files = []DirEnt{
+		{RawDirEnt: RawDirEnt{Type: DirRoot}, name: "Root Entry"},
+		{RawDirEnt: RawDirEnt{Type: DirStream, StreamSize: size, NextSector: SecID(first)}, Index: 1, name: "\x05DigitalSignature"},
+		{RawDirEnt: RawDirEnt{Type: DirStream, StreamSize: 3, NextSector: 2}, Index: 2, name: "Payload"},
+	}
+	r.rootFiles = []int{1, 2}
+	other := r.Files[2]
+	err := r.DeleteFile("\x05DigitalSignature")
+	vhAssert(err == nil, "stream-can-be-replaced")
+	vhReach("deleted") // vh:require deleted
+	vhAssert(len(r.rootFiles) == 1 && r.rootFiles[0] == 2, "only-that-stream-leaves-the-directory")
+	vhAssert(r.Files[2].StreamSize == other.StreamSize && r.Files[2].NextSector == other.NextSector && r.Files[2].name == other.name && r.Files[2].Type == other.Type, "other-entries-untouched")
+	for i := range preSAT {
+		if !short && i == first {
+			vhAssert(r.SAT[i] == SecIDFree, "its-sector-released")
+		} else {
+			vhAssert(r.SAT[i] == preSAT[i], "sector-table-otherwise-untouched")
+		}
+		if short && i == first {
+			vhAssert(r.SSAT[i] == SecIDFree, "its-short-sector-released")
+		} else {
+			vhAssert(r.SSAT[i] == preSSAT[i], "short-sector-table-otherwise-untouched")
+		}
+	}
+}
+
+// H03.cfb: the same decision registered under C03 - every pre-existing
+// stream keeps its bytes because replacing the signature stream releases
+// only the signature's own sectors (a sector released in the wrong table is
+// handed to the next stream written and overwritten).
+func VH_C03_CfbReplaceKeepsOtherStreams() { VH_C18_DeleteStreamFreesItsOwnChain() }
+
+// H03.cfb-alloc: registered under C03 as well (its mechanism "streams are
+// added through sector allocation that only uses free sectors").
+func VH_C03_CfbAddStreamUsesFreeSectors() { VH_C18_AddStream() }
